@@ -69,6 +69,10 @@ def admissible(mn, p):
     if mn in ('X', 'Y', 'Z') and len(p) == 4:
         # radii are non-negative and the two points are distinct
         return [e[1] >= 0, e[3] >= 0, z3.Or(e[0] != e[2], e[1] != e[3])]
+    if mn == 'C':      # generic cylinder (macrobody facet): x y z r A B C
+        return [e[3] > 0, z3.Or(e[4] != 0, e[5] != 0, e[6] != 0)]
+    if mn == 'K':      # generic cone (macrobody facet): x y z tan A B C
+        return [e[3] > 0, z3.Or(e[4] != 0, e[5] != 0, e[6] != 0)]
     if mn == 'SQ':
         # the converter negates the card when G > 0 (value at (xbar,ybar,zbar)); MCNP's behaviour
         # for that sub-case is not established (DESIGN section 5, F5): outside the claim.
